@@ -11,7 +11,7 @@ from core import *
 from c03 import py_round, _fr, _err
 
 NEEDS = ["Solver", "SolverProofs", "Interp", "Inputs", "InputsProofs", "Corr"]
-GUARDS = []
+GUARDS = ["multi_sample"]
 ERRMAP = {"IndexError": "ErrIndex", "ZeroDivisionError": "ErrZeroDiv", "ValueError": "ErrShape", "AttributeError": "ErrAttribute"}
 
 # ---------------------------------------------------------------------------------------------- impl side (worker)
@@ -190,7 +190,26 @@ def make_exact(case):
     case["W"] = [["0"] * case["nn"] for _ in range(case["nn"])]
     return case
 
+def gen_single_sample(rng):
+    """arrays with one time sample: with one step inside the contract (known finding), with more steps 'too short'"""
+    nn = rng.choice([1, 2, 3, 3, 10, 11])
+    dt = Fr(1, 2 ** rng.choice([0, 1, 2]))
+    steps = rng.choice([1, 1, 2, 3, 4])
+    vectorize = rng.random() < 0.65
+    x0, W, names = gen_net(rng, nn)
+    shape = rng.choice(["1d", "col", "2d", "2d"]) if nn > 1 else rng.choice(["1d", "col"])
+    nodes = "all" if shape == "2d" or rng.random() < 0.6 else rng.randrange(nn)
+    val = lambda: str(rng.randint(-4, 6))
+    data = [val()] if shape == "1d" else [[val()]] if shape == "col" else [[val() for _ in range(nn)]]
+    case = dict(kind="fixed", solver=rng.choice(["euler", "heun"]), backend="default", dts=None, cutoff="0", vectorize=vectorize,
+                depth=rng.choice([0, 0, 1, 2]), udef="0", prelude=False, T=str(steps * dt), dt=str(dt), nn=nn,
+                x0=[str(v) for v in x0], W=[["0"] * nn for _ in range(nn)], names=names,
+                inputs=[dict(nodes=nodes, form=rng.randrange(8), shape=shape, data=data)])
+    return case
+
 def gen_fixed(rng):
+    if rng.random() < 0.06:
+        return gen_single_sample(rng)
     nn = rng.choice([1, 2, 2, 3, 3]) if rng.random() < 0.9 else rng.choice([10, 11, 12])      # 1-D broadcast to >= 10 nodes (D85)
     dt = Fr(1, 2 ** rng.choice([0, 1, 2, 3]))
     # every backend with its own fixed-step loop, with store_step in {1,2,3,4} and a cutoff.  torch rejects heun; jax + heun
@@ -204,6 +223,8 @@ def gen_fixed(rng):
     vectorize = rng.random() < 0.6
     depth = rng.choice([0, 0, 0, 1, 1, 2, 2, 3])
     extra = rng.choice([0, 0, 0, 1, 3]) if (rng.random() < 0.93 or backend == "jax") else -1   # a too short array: IndexError (jax clamps instead)
+    if backend != "default" and steps + extra < 2:
+        extra = 0              # single-sample arrays fail with backend-specific exception types: default backend only (gen_single_sample)
     x0, W, names = gen_net(rng, nn)
     r = rng.random()
     nrows = steps // mult
@@ -212,7 +233,8 @@ def gen_fixed(rng):
                 dts=None if (mult == 1 and rng.random() < 0.5) else str(mult * dt), cutoff=str(cutoff), vectorize=vectorize, depth=depth,
                 udef=str(rng.choice([0, 0, Fr(1, 2), 1, Fr(-1, 2), 2])), prelude=(not vectorize) and rng.random() < 0.3, T=str(T), dt=str(dt), nn=nn,
                 x0=[str(v) for v in x0], W=[[str(v) for v in r] for r in W], names=names,
-                inputs=gen_inputs(rng, nn, vectorize, max(1, steps + extra)))
+                # forms the implementation rejects ((N,n) without vectorize) raise backend-specific exception types: default only
+                inputs=gen_inputs(rng, nn, vectorize, max(1, steps + extra), allow_bad=(backend == "default")))
     dedup_targets(case)
     return make_exact(case)
 
@@ -269,6 +291,7 @@ Definition specO (c : tcase) : outcome :=
   else Rows (spec_run_inputs (sv c) (cT c) (cdt c) (cdts c) (ccut c) (cudef c) (cW c) (cin c) (cx0 c)).
 Definition okI (p : tcase * outcome) := outcome_eqb (implO (fst p)) (snd p).
 Definition okS (p : tcase * outcome) := outcome_eqb (specO (fst p)) (snd p).
+Definition g_multi (p : tcase * outcome) := adaptive (fst p) || multi_sample (cin (fst p)).
 (* forms the implementation accepts, arrays long enough, >= 2 rows: outside, only model = code is demanded *)
 Definition g_scope (p : tcase * outcome) :=
   adaptive (fst p) || (forallb (input_ok (vec (fst p)) (rnd (cT (fst p) / cdt (fst p)))) (cin (fst p)) &&
@@ -293,16 +316,16 @@ def coq_case(case, out):
     return f"({t}, {coq_outcome(out)})"
 
 def model_compare(ctx, cases, outs, tag):
-    res = [[], [], []]
+    res = [[], [], [], []]
     shard = 80
     for s in range(0, len(cases), shard):
         terms = [coq_case(c, o) for c, o in zip(cases[s:s + shard], outs[s:s + shard])]
         body = ("Definition cases : list (tcase * outcome) := " + clist(terms) + ".\n" +
-                "".join(f"Eval vm_compute in (mismatches {fn} cases).\n" for fn in ("okI", "okS", "g_scope")))
+                "".join(f"Eval vm_compute in (mismatches {fn} cases).\n" for fn in ("okI", "okS", "g_scope", "g_multi")))
         out = coq_eval(ctx, f"c08_{tag}_{s}", HEADER, body)
         ls = parse_nat_lists(out)
-        assert len(ls) == 3, out[:400]
-        for k in range(3):
+        assert len(ls) == 4, out[:400]
+        for k in range(4):
             res[k] += [s + i for i in ls[k]]
     return res
 
@@ -326,6 +349,13 @@ def fails(ctx, case, tag):
     res = model_compare(ctx, [case], [r], tag)
     return bool(res[1]) and not res[2], r
 
+def fails_strict(ctx, case, tag):
+    r = run_impl(ctx, "c08", "impl", [case], nworkers=1)[0]
+    if not known_outcome(r):
+        return True, r
+    res = model_compare(ctx, [case], [r], tag)
+    return bool(res[1]) and not (res[2] or res[3]), r
+
 def shrink(ctx, case):
     best, budget = case, 10
     def attempt(cand, tag):
@@ -334,7 +364,7 @@ def shrink(ctx, case):
             return
         budget -= 1
         try:
-            if (cand["kind"] != "fixed" or exact_ok(cand)) and fails(ctx, cand, tag)[0]:
+            if (cand["kind"] != "fixed" or exact_ok(cand)) and fails_strict(ctx, cand, tag)[0]:
                 best = cand
         except Exception:
             pass
@@ -366,10 +396,11 @@ def check(ctx):
     crashed = [i for i, r in enumerate(outs) if not known_outcome(r)]
     good = [i for i in range(len(cases)) if i not in crashed]
     res = model_compare(ctx, [cases[i] for i in good], [outs[i] for i in good], "main")
-    badI, badS, noscope = [[good[i] for i in l] for l in res]
+    badI, badS, noscope, nomulti = [[good[i] for i in l] for l in res]
     # unaccepted forms / too short arrays (IndexError at every depth) are outside the property: model = code only
     badS = [i for i in badS if i not in noscope]
-    guard_viol = {}
+    # a single-sample array inside the contract (one step): known finding `single_sample`, attributed when the code fails as modelled
+    guard_viol = {i: ["multi_sample"] for i in nomulti if i not in noscope and i not in badI}
     ctx.note(f"E1: {len(cases)} cases ({sum(1 for c in cases if c['kind'] == 'fixed')} run(euler/heun, inputs), "
              f"{sum(1 for c in cases if c['kind'] == 'adaptive')} get_run_func(scipy, inputs)); impl-vs-Impl mismatches {len(badI)}, "
              f"impl-vs-Spec mismatches {len(badS)} (of which outside the guard: {sum(1 for i in badS if i in guard_viol)}), "
@@ -402,7 +433,7 @@ def check(ctx):
                 with_edges=sum(1 for c in cases if any(Fr(w) != 0 for r in c["W"] for w in r)),
                 two_sources_on_one_unit=sum(1 for c in cases if any(sum(1 for i in c["inputs"] if u in addressed(c, i)) +
                                                                     sum(1 for w in c["W"][u] if Fr(w) != 0) >= 2 for u in range(c["nn"]))),
-                guard_false=dict(out_of_scope_forms=len(noscope)), real_outcomes=outcome_hist)
+                guard_false=dict(out_of_scope_forms=len(noscope), multi_sample=len(nomulti)), real_outcomes=outcome_hist)
     write_evidence(ctx, evaluations=len(cases), distinct_nontrivial=len(nt),
                    rule="a case is non-trivial when some input is non-constant and (>= 2 nodes are addressed by it or the case has >= 2 inputs) "
                         "(DESIGN summary table); distinct = distinct canonical JSON. Networks of 1-3 integrators with shuffled node names, optional weighted "
